@@ -39,8 +39,9 @@ def repeatable(key, out):
     return None
 
 
-def tp_call(rng, tu, tr):
-    ti, di = rng.randint(0, 1), rng.randint(0, 2)
+def tp_call(rng, tu, tr, ti=None, di=None):
+    ti = rng.randint(0, 1) if ti is None else ti
+    di = rng.randint(0, 2) if di is None else di
     kind = rng.choice(['list', 'tuple', 'generator'])
     c = c09.make_case(None, tu, tr, ti, di, 'history-tp-' + kind)
     text = gens.lines(tu)
@@ -116,7 +117,13 @@ def main():
             tu = rng.choice(pool)
             k = rng.randint(0, 5)
             if k == 0:
-                cases.append(tp_call(rng, tu, rng.choice([None, rng.choice(pool)])))
+                tr = rng.choice([None, rng.choice(pool)])
+                ti, di = rng.randint(0, 1), rng.randint(0, 2)
+                cases.append(tp_call(rng, tu, tr, ti, di))
+                if rng.random() < 0.6:
+                    # the same model again: another text, then the first call repeated
+                    cases.append(tp_call(rng, rng.choice(pool), tr, ti, di))
+                    cases.append(tp_call(rng, tu, tr, ti, di))
             elif k == 1:
                 cases.append(puddle_call(rng, tu, frozen=True))
             elif k == 2:
